@@ -16,6 +16,9 @@ import (
 // sequence.
 
 type MRow struct {
+	// A: a repeated column that is not a sort key and comes BEFORE the keys in the
+	// rows (its extra values shift the position of the keys)
+	A   []int64
 	K   int64
 	K2  int32
 	Src int32
@@ -23,6 +26,7 @@ type MRow struct {
 }
 
 type MRowN struct {
+	A   []int64
 	K   *int64
 	K2  int32
 	Src int32
@@ -155,11 +159,20 @@ func c09MakeInput(spec c09Spec, src int, counts []int, k2split bool) []mrow {
 	return rows
 }
 
+// c09Attrs: 0 to 3 elements, far from every key value and in no order.
+func c09Attrs(r mrow) []int64 {
+	var a []int64
+	for j := 0; j < int(r.seq+r.src)%4; j++ {
+		a = append(a, int64(1000-100*j)-int64(r.seq)*7)
+	}
+	return a
+}
+
 func toGo(spec c09Spec, rows []mrow) (any, any) {
 	if spec.nullable {
 		out := make([]MRowN, len(rows))
 		for i, r := range rows {
-			out[i] = MRowN{K2: r.k2, Src: r.src, Seq: r.seq}
+			out[i] = MRowN{A: c09Attrs(r), K2: r.k2, Src: r.src, Seq: r.seq}
 			if !r.null {
 				out[i].K = ptrTo(r.k)
 			}
@@ -168,7 +181,7 @@ func toGo(spec c09Spec, rows []mrow) (any, any) {
 	}
 	out := make([]MRow, len(rows))
 	for i, r := range rows {
-		out[i] = MRow{K: r.k, K2: r.k2, Src: r.src, Seq: r.seq}
+		out[i] = MRow{A: c09Attrs(r), K: r.k, K2: r.k2, Src: r.src, Seq: r.seq}
 	}
 	return nil, out
 }
@@ -251,7 +264,7 @@ func fromParquetRowNamed(names []string, r parquet.Row) mrow {
 	return m
 }
 
-var mrowNames = []string{"K", "K2", "Src", "Seq"}
+var mrowNames = []string{"A", "K", "K2", "Src", "Seq"}
 
 func fromParquetRow(spec c09Spec, r parquet.Row) mrow { return fromParquetRowNamed(mrowNames, r) }
 
